@@ -78,7 +78,7 @@ fn any_port_state() -> PortState {
 }
 
 // @harness c05_best_compare_matches_reference
-// @props C05
+// @props C05:quick
 // @tier quick
 // @timeout 300
 // @functions BestAnnounceMessage::compare, compare_dataset, ComparisonDataset::from_announce_message, ComparisonDataset::compare
@@ -106,7 +106,7 @@ fn c05_best_compare_matches_reference() {
 }
 
 // @harness c05_best_compare_transitive
-// @props C05
+// @props C05:quick
 // @tier quick
 // @timeout 600
 // @functions BestAnnounceMessage::compare
@@ -137,7 +137,7 @@ fn c05_best_compare_transitive() {
 }
 
 // @harness c05_best_compare_cycle_witness
-// @props C05
+// @props C05:thorough
 // @tier thorough
 // @timeout 600
 // @expect fail
@@ -162,7 +162,7 @@ fn best_of(x: BestAnnounceMessage, y: BestAnnounceMessage, z: BestAnnounceMessag
 }
 
 // @harness c05_find_best_maximal_and_order_independent
-// @props C05
+// @props C05:quick
 // @tier quick
 // @timeout 900
 // @functions Bmca::find_best_announce_message, BestAnnounceMessage::compare
@@ -210,7 +210,7 @@ fn dec_code(r: &Option<RecommendedState>) -> u8 {
 }
 
 // @harness c05_state_decision_matches_reference
-// @props C05
+// @props C05:quick
 // @tier quick
 // @timeout 900
 // @functions Bmca::calculate_recommended_state, calculate_recommended_state_low_class, calculate_recommended_state_high_class, compare_global_and_port, compare_d0_best
@@ -283,8 +283,15 @@ pub(crate) fn best_identity(b: &BestAnnounceMessage) -> PortIdentity {
 /// foreign master, or an arbitrary qualified Announce received on this port - sender is not the own
 /// clock, stepsRemoved < 255, sender accepted by the port's acceptable master list - with an
 /// arbitrary non-negative age. What the list-level code does to obtain it is outside the claim (C06).
+/// case split of the instance-level harness: per port number (1, 2) 0 = Erbest present or absent (symbolic),
+/// 1 = absent, 2 = present. The parts of a split harness cover every combination between them.
+pub(crate) static mut TAKE_FORCE: [u8; 2] = [0; 2];
+
 pub(crate) fn take_stub<A: AcceptableMasterList>(b: &mut Bmca<A>) -> Option<BestAnnounceMessage> {
-    if kani::any() {
+    let pn = b.own_port_identity.port_number;
+    let force = if pn == 1 || pn == 2 { unsafe { TAKE_FORCE[(pn - 1) as usize] } } else { 0 };
+    let absent: bool = kani::any();
+    if force == 1 || (force == 0 && absent) {
         return None;
     }
     let m = any_announce();
@@ -328,19 +335,19 @@ fn take_best_case(n: usize, cs: [usize; 2]) {
         }
         i += 1;
     }
-    kani::cover!(n < 2 || (q[0] && q[1]), "two qualified masters compete (two-record shapes)");
-    kani::cover!(n > 0 && !q[0] && !q[1], "no master qualified");
+    kani::cover!(n < 2 || cs[0] == 1 || (q[0] && q[1]), "two qualified masters compete (shape 2 x [2, 2])");
+    kani::cover!(cs[0] == 2 || (n > 0 && !q[0] && !q[1]), "no master qualified (shapes whose first record holds one message)");
     core::mem::forget(best);
     core::mem::forget(b);
 }
 
 // @harness c06_bmca_take_best_n01
-// @props C06 C03
+// @props C06:quick C03:quick
 // @tier quick
 // @variant lists2_rv
 // @stubbing yes
 // @timeout 1800
-// @mem 16
+// @mem 6
 // @functions Bmca::take_best_port_announce_message, Bmca::find_best_announce_message, BestAnnounceMessage::compare, Bmca::reregister_announce_message, ForeignMasterList::take_qualified_announce_messages, ForeignMasterList::register_announce_message, ForeignMaster::register_announce_message
 // @bounds one take_best_port_announce_message() of a stand-alone Bmca (accept-any master list) whose list is in an arbitrary state satisfying the invariant (the 3 shapes with at most one record of 1..=2 messages, any ages in [0, window), any sequence ids; concrete Announce payloads, masters differ in port number only); capacities scaled 8 -> 2
 // @assume arrayvec::ArrayVec::retain (textually, variant _rv) and ArrayVec::remove (#[kani::stub]) replaced by element-wise equivalents for at most two elements (retain2, remove2)
@@ -357,23 +364,46 @@ fn c06_bmca_take_best_n01() {
     }
 }
 
-// @harness c06_bmca_take_best_n2
-// @props C06 C03
+// @harness c06_bmca_take_best_n2a
+// @props C06:quick C03:thorough
 // @tier quick
 // @variant lists2_rv
 // @stubbing yes
 // @timeout 1800
-// @mem 16
+// @mem 15
 // @functions Bmca::take_best_port_announce_message, Bmca::find_best_announce_message, BestAnnounceMessage::compare, Bmca::reregister_announce_message, ForeignMasterList::take_qualified_announce_messages, ForeignMasterList::register_announce_message, ForeignMaster::register_announce_message
-// @bounds one take_best_port_announce_message() of a stand-alone Bmca (accept-any master list) whose list is in an arbitrary state satisfying the invariant (the 4 shapes with two records of 1..=2 messages, any ages in [0, window), any sequence ids; concrete Announce payloads, masters differ in port number only); capacities scaled 8 -> 2
+// @bounds one take_best_port_announce_message() of a stand-alone Bmca (accept-any master list) whose list is in an arbitrary state satisfying the invariant (the 2 shapes with two records whose first holds 1 message, any ages in [0, window), any sequence ids; concrete Announce payloads, masters differ in port number only); capacities scaled 8 -> 2
 // @assume arrayvec::ArrayVec::retain (textually, variant _rv) and ArrayVec::remove (#[kani::stub]) replaced by element-wise equivalents for at most two elements (retain2, remove2)
 // @note consumption half of C06: the port's Erbest exists iff some master has at least two Announces inside the window - never on the strength of a single message; it is that master's most recent Announce with its age; the run restores the record of Erbest and leaves every other master exactly its older message (a competing master needs a further Announce to qualify again)
 #[kani::proof]
 #[kani::unwind(9)]
 #[kani::stub(arrayvec::ArrayVec::remove, crate::bmc::foreign_master::verif_fm::remove2)]
-fn c06_bmca_take_best_n2() {
+fn c06_bmca_take_best_n2a() {
     use crate::bmc::foreign_master::verif_fm::SHAPES;
     let mut k = 3;
+    while k < 5 {
+        take_best_case(SHAPES[k].0, SHAPES[k].1);
+        k += 1;
+    }
+}
+
+// @harness c06_bmca_take_best_n2b
+// @props C06:quick C03:thorough
+// @tier quick
+// @variant lists2_rv
+// @stubbing yes
+// @timeout 1800
+// @mem 15
+// @functions Bmca::take_best_port_announce_message, Bmca::find_best_announce_message, BestAnnounceMessage::compare, Bmca::reregister_announce_message, ForeignMasterList::take_qualified_announce_messages, ForeignMasterList::register_announce_message, ForeignMaster::register_announce_message
+// @bounds one take_best_port_announce_message() of a stand-alone Bmca (accept-any master list) whose list is in an arbitrary state satisfying the invariant (the 2 shapes with two records whose first holds 2 messages, any ages in [0, window), any sequence ids; concrete Announce payloads, masters differ in port number only); capacities scaled 8 -> 2
+// @assume arrayvec::ArrayVec::retain (textually, variant _rv) and ArrayVec::remove (#[kani::stub]) replaced by element-wise equivalents for at most two elements (retain2, remove2)
+// @note consumption half of C06: the port's Erbest exists iff some master has at least two Announces inside the window - never on the strength of a single message; it is that master's most recent Announce with its age; the run restores the record of Erbest and leaves every other master exactly its older message (a competing master needs a further Announce to qualify again)
+#[kani::proof]
+#[kani::unwind(9)]
+#[kani::stub(arrayvec::ArrayVec::remove, crate::bmc::foreign_master::verif_fm::remove2)]
+fn c06_bmca_take_best_n2b() {
+    use crate::bmc::foreign_master::verif_fm::SHAPES;
+    let mut k = 5;
     while k < 7 {
         take_best_case(SHAPES[k].0, SHAPES[k].1);
         k += 1;
